@@ -485,14 +485,26 @@ class Lib:
         return None
 
     def _rep_shdr(self, ctx, machine, code):
+        r = self._rep_shdr_cell(ctx, machine, code, 64, True)
+        if code >= 0x60000000:
+            # what a processor- or OS-specific code is called is a matter of e_machine / OS ABI alone (elf.h, ELF.h): not of the class or the
+            # byte order of the container (x32, n32, ILP32 objects are ELFCLASS32 files of 64-bit machines)
+            for cls, le in ((32, True), (32, False), (64, False)):
+                r2 = self._rep_shdr_cell(ctx, machine, code, cls, le)
+                if r2 != r:
+                    return ('depends-on-container', 'ELF64 LSB: %r' % (r,), 'ELF%d %s: %r' % (cls, 'LSB' if le else 'MSB', r2))
+        return r
+
+    def _rep_shdr_cell(self, ctx, machine, code, cls, le):
         # gABI numbers (not the library's): sections whose sh_link must name a symbol table / fixed entry sizes
         link = 3 if code in (4, 5, 9, 18, 0x6ffffff6, 0x6ffffffc, 0x6fffffff) else 2
-        entsize = {9: 16, 19: 8}.get(code, 24)
-        sym = W.enc_sym(64, True, 0, 0, 0, 0, 0, 0) + W.enc_sym(64, True, 1, 0x10, 4, 0x12, 0, 1)
-        elf = self.parse(self.model(e_machine=machine, sections=[
+        symsz = W.SYM_SIZE[cls]
+        entsize = {9: 16 if cls == 64 else 8, 19: cls // 8}.get(code, symsz)
+        sym = W.enc_sym(cls, le, 0, 0, 0, 0, 0, 0) + W.enc_sym(cls, le, 1, 0x10, 4, 0x12, 0, 1)
+        elf = self.parse(self.model(e_machine=machine, cls=cls, le=le, sections=[
             {'name': '.c17', 'sh_type': code, 'data': b'A' + b'\0' * 47, 'sh_link': link, 'sh_entsize': entsize, 'sh_addralign': 1},
             {'name': '.strx', 'sh_type': 3, 'data': b'\0abc\0'},
-            {'name': '.symx', 'sh_type': 2, 'data': sym, 'sh_link': 2, 'sh_info': 1, 'sh_entsize': 24, 'sh_addralign': 8}]))
+            {'name': '.symx', 'sh_type': 2, 'data': sym, 'sh_link': 2, 'sh_info': 1, 'sh_entsize': symsz, 'sh_addralign': 8}]))
         try:
             sec = elf.get_section(1)
             ctx.count('e2e.shdr')
